@@ -15,8 +15,9 @@ SHAPES = [
     {'net_io': ('a',), 'disk_io': ('a',), 'disk_usage': ('a',)},
     {'net_io': ('a', 'b'), 'disk_io': ('a', 'b'), 'disk_usage': ('a', 'b')},
     {'net_io': ('b',), 'disk_io': (), 'disk_usage': ('b',)},
-    {'net_io': ('a',), 'disk_io': ('a',), 'disk_usage': ('a',), 'wrap': 'a'},
-    {'net_io': ('a', 'b'), 'disk_io': ('a',), 'disk_usage': ('a',), 'wrap': 'b'},
+    {'net_io': ('a',), 'disk_io': ('a',), 'disk_usage': ('a',), 'wrap': ('net_io', 'a', 0)},
+    {'net_io': ('a', 'b'), 'disk_io': ('a',), 'disk_usage': ('a',), 'wrap': ('net_io', 'b', 1)},
+    {'net_io': ('a',), 'disk_io': ('a',), 'disk_usage': ('a',), 'wrap': ('disk_io', 'a', 1)},
 ]
 
 
@@ -60,7 +61,7 @@ def host_stream(src, k=4):
     now = 1000.0
     last_point = None
     points = 0
-    counters = {key: [1000, 1000] for key in KEYS}
+    counters = {(kind, key): [1000, 1000] for kind in ('net_io', 'disk_io') for key in KEYS}
     for i in range(k):
         if i > 0:
             # concrete steps against a symbolic period: the rates stay concrete (no non-linear arithmetic), the
@@ -74,10 +75,12 @@ def host_stream(src, k=4):
                 if kind == 'disk_usage':
                     sample[kind][key] = 50.0
                 else:
-                    wrap = kind == 'net_io' and key == shape.get('wrap')
-                    counters[key][0] = 5 if wrap else counters[key][0] + 100
-                    counters[key][1] = counters[key][1] + 50
-                    sample[kind][key] = (counters[key][0], counters[key][1])
+                    # one of the two counters of an entity restarts from a small value, the other keeps growing
+                    wrap = shape.get('wrap', (None, None, None))
+                    cnt = counters[(kind, key)]
+                    for d, step in ((0, 100), (1, 50)):
+                        cnt[d] = 5 if wrap == (kind, key, d) else cnt[d] + step
+                    sample[kind][key] = (cnt[0], cnt[1])
         results = comp.push_statistics(ident, sample)
         inst = comp.get_stats(ident, period)
         src.check('instance-created-on-first-sample', inst is not None, sig='new-instance')
@@ -106,6 +109,30 @@ def host_stream(src, k=4):
     src.check('no-internal-error', not sup.logger.tracebacks())
     src.reach('streamed')
     src.obs('points', points)
+
+
+@rigged
+def io_kernel(src):
+    """H20i: one call of the real io_statistics on solver-chosen 64-bit counters (any of the four may have wrapped or
+    stalled), key sets that differ between the reference and the new sample, exact rational arithmetic (the Float64
+    rounding of the same expressions is the subject of the fp queries)"""
+    from supvisors.statscompiler import io_statistics
+    top = 2 ** 64
+    last_keys, ref_keys = src.pick('keys', [(('a',), ('a',)), (('a', 'b'), ('a',)), (('a',), ('a', 'b')),
+                                            (('a',), ())])
+    last = {k: (src.int(f'last_in_{k}', 0, top), src.int(f'last_out_{k}', 0, top)) for k in last_keys}
+    ref = {k: (src.int(f'ref_in_{k}', 0, top), src.int(f'ref_out_{k}', 0, top)) for k in ref_keys}
+    duration = src.pick('duration', [1.0, 7.5, 4000.0])
+    rates = io_statistics(last, ref, duration)
+    for key, values in rates.items():
+        src.check('rate-only-for-known-entity', key in last and key in ref, sig='kernel:key', key=key)
+        src.check('two-directions', len(values) == 2, sig='kernel:shape')
+        for d, v in enumerate(values):
+            src.reach('rate')
+            src.check('io-rate-non-negative', v >= 0, sig=f'kernel:direction{d}', key=key)
+            src.check('io-rate-is-the-counter-difference-per-second-in-kbits',
+                      v * duration * 128 == last[key][d] - ref[key][d], sig=f'kernel:value{d}', key=key)
+    src.reach('done')
 
 
 def sym_min(a, b, src):
@@ -209,20 +236,28 @@ def fp_queries():
         r = SC.cpu_statistics([(m['latest_work'], m['latest_idle'])], [(m['ref_work'], m['ref_idle'])])[0]
         return not (0 <= r <= 100), r
     out.append(('cpu-percentage-in-0-100', f'cpu_statistics: {text}', '\n'.join(smt), names, replay_cpu))
-    # --- I/O rate from non-decreasing counters over a duration of at least one period (>= 1 s)
-    term, free, text = io_expression(SC.io_statistics)
-    names = ['last_in', 'ref_in', 'duration']
-    smt = ['(set-logic QF_FP)', _decl(names), _finite_between('last_in', 0.0, 2.0 ** 53),
-           _finite_between('ref_in', 0.0, 2.0 ** 53), _finite_between('duration', 1.0, BOUND),
-           '(assert (fp.leq ref_in last_in))',
-           f'(define-fun result () (_ FloatingPoint 11 53) {term})',
-           f'(assert (not (and (not (fp.isNaN result)) (not (fp.isInfinite result)) (fp.leq {f64(0.0)} result))))',
-           '(check-sat)', f'(get-value ({" ".join(names)}))']
+    # --- I/O rates (both directions) from non-decreasing counters over a duration of at least one period (>= 1 s)
+    for d, (term, free, text) in enumerate(io_expression(SC.io_statistics)):
+        names = list(free)
+        lasts = [n for n in names if n.startswith('last')]
+        refs = [n for n in names if n.startswith('ref')]
+        others = [n for n in names if n not in lasts + refs]
+        if len(lasts) != 1 or len(refs) != 1 or len(others) != 1:
+            raise NotImplementedError(f'io_statistics: unexpected variables {names} in {text}')
+        lv, rv, dv = lasts[0], refs[0], others[0]
+        smt = ['(set-logic QF_FP)', _decl(names), _finite_between(lv, 0.0, 2.0 ** 53),
+               _finite_between(rv, 0.0, 2.0 ** 53), _finite_between(dv, 1.0, BOUND),
+               f'(assert (fp.leq {rv} {lv}))',
+               f'(define-fun result () (_ FloatingPoint 11 53) {term})',
+               f'(assert (not (and (not (fp.isNaN result)) (not (fp.isInfinite result)) (fp.leq {f64(0.0)} result))))',
+               '(check-sat)', f'(get-value ({" ".join(names)}))']
 
-    def replay_io(m):
-        r = SC.io_statistics({'x': (int(m['last_in']), 0)}, {'x': (int(m['ref_in']), 0)}, m['duration'])['x'][0]
-        return not (math.isfinite(r) and r >= 0), r
-    out.append(('io-rate-finite-non-negative', f'io_statistics: {text}', '\n'.join(smt), names, replay_io))
+        def replay_io(m, d=d, lv=lv, rv=rv, dv=dv):
+            pair = lambda x: (int(x), 0) if d == 0 else (0, int(x))
+            r = SC.io_statistics({'x': pair(m[lv])}, {'x': pair(m[rv])}, m[dv])['x'][d]
+            return not (math.isfinite(r) and r >= 0), r
+        out.append((f'io-rate-{("in", "out")[d] if d < 2 else d}-finite-non-negative', f'io_statistics: {text}',
+                    '\n'.join(smt), names, replay_io))
     # --- process CPU from a non-decreasing work counter over at least one period
     term, free, text = proc_expression(SC.ProcStatisticsInstance.integrate)
     names = sorted(free)
@@ -333,6 +368,8 @@ HARNESSES = [
             doc='host statistics stream: bounded, aligned, period respected'),
     Harness('H20p', process_stream, quick={'k': 4}, thorough={'k': 5}, reach=('streamed', 'point', 'stopped'),
             timeout=(100, 900), doc='process statistics stream: pid changes, stops, identifiers'),
+    Harness('H20i', io_kernel, quick={}, thorough={}, reach=('done', 'rate'), timeout=(60, 60),
+            doc='io_statistics on symbolic 64-bit counters: wrap guard of both directions, key sets'),
     Harness('H20t', trunc, quick={}, thorough={}, reach=('done',), timeout=(30, 30), doc='trunc_depth lemma'),
 ]
 BOUNDS = {'quick': {'samples': '3 (host) / 4 (process)', 'time_steps': DTS, 'period': '[1,3600] symbolic real', 'depth': '[1,3] symbolic', 'keys': 2,
